@@ -254,8 +254,10 @@ Convex == CoreDone =>
   /\ QLe(res, QInt(MaxOfSet({val[t] : t \in keep})))
 \* whatever sits at masked positions (weights and values) does not matter
 MaskBlind == CoreDone =>
-  \A w2 \in [1..T -> CoreW], v2 \in [1..T -> CoreV] :
-     (\A t \in keep : w2[t] = w[t] /\ v2[t] = val[t]) => Decl(w2, keep, v2) = res
+  LET masked == (1..T) \ keep
+  IN \A w2 \in [masked -> CoreW], v2 \in [masked -> CoreV] :
+       Decl([t \in 1..T |-> IF t \in keep THEN w[t] ELSE w2[t]], keep,
+            [t \in 1..T |-> IF t \in keep THEN val[t] ELSE v2[t]]) = res
 Perms == {f \in [1..T -> 1..T] : \A x, y \in 1..T : x # y => f[x] # f[y]}
 PermutationInvariant == CoreDone =>
   \A f \in Perms : Decl([t \in 1..T |-> w[f[t]]], {t \in 1..T : f[t] \in keep}, [t \in 1..T |-> val[f[t]]]) = res
